@@ -761,6 +761,7 @@ theorem fromRecordsRaw_strict_iff (hc : cols.Nodup) (hr : RecsOK cols recs) :
         hasParent := ?_
         oneParent := ?_
         childNodup := ?_
+        childNe := ?_
         rowsNodup := fromRecordsRaw_rowsNodup hc hr }
     · intro k hk; rw [fromRecordsRaw_keys] at hk; exact hk
     · intro k hk; rw [fromRecordsRaw_keys]; exact hk
@@ -782,6 +783,24 @@ theorem fromRecordsRaw_strict_iff (hc : cols.Nodup) (hr : RecsOK cols recs) :
       have := hn j hj r₁ hrm₁ r₂ hrm₂ (hcc₁.trans hcc₂.symm)
       rw [hp₁, hp₂] at this
       exact Option.some.inj this
+    · -- every parent key was created together with a child
+      intro pl cl hp p cs hm hnil
+      obtain ⟨j, hj, hl₁, _⟩ := hpair hp
+      have hjl : j < cols.length := by omega
+      have hpl : pl = cols[j] := by
+        rw [List.getElem?_eq_getElem hjl] at hl₁; exact (Option.some.inj hl₁).symm
+      have hd := fromRecordsRaw_dictOK hc recs
+      have hpn : p ∈ (fromRecordsRaw cols recs).nodesAt pl := mem_nodesAt.2 ⟨cs, hm⟩
+      obtain ⟨r, hrm, hrp⟩ := (inv.nodes j pl hl₁ p).1 hpn
+      have hlen := hr r hrm
+      have h2 : r[j+1]? = some (r[j+1]'(by omega)) := List.getElem?_eq_getElem _
+      obtain ⟨cs', hm', hc'⟩ := (inv.children j pl hl₁ hj p _).2 ⟨r, hrm, hrp, h2⟩
+      have e1 := entry_of_mem hd hm
+      have e2 := entry_of_mem hd hm'
+      rw [e1] at e2
+      subst e2
+      rw [hnil] at hc'
+      cases hc'
     · intro pl cl hp p cs hm
       obtain ⟨j, hj, hl₁, _⟩ := hpair hp
       exact inv.childNodup j pl hl₁ hj p cs hm
